@@ -59,6 +59,13 @@ def families(tier, rng):
                         st += [["nq", ["send", 1, c]], ["iter", 6]]
                     st += [["iter", a], ["nq", end], ["tick", 0]] + ([["connect", 1], ["send", 1, "USER u2"], ["send", 1, "QUIT"]] if end[0] == "vanish" else [])
                     fam.append(("backlog", st))
+    # 7. server.close() while a session's teardown is slow (its worker is held in a backend call) and somebody tries to connect
+    #    meanwhile: a closing server admits nobody
+    for verb, op, data in (("STOR zz", "close", [1, 2]), ("RETR f", "read", None), ("STOR zz", "write", [4])):
+        for a in (1, 2, 4, 7):     # (the close() task has taken its first step: the listener is closed)
+            st = [["connect", 1], ["send", 1, "USER u1"], ["send", 1, "PASS pw1"], ["send", 1, "PASV"], ["dconnect", 1], ["gate", 1, op, 1], ["send", 1, verb]]
+            st += ([["dsend", 1, data]] if data else []) + [["nq", ["srvclose"]], ["iter", a], ["nq", ["connect", 2]], ["iter", 5], ["release", 1], ["tick", 0]]
+            fam.append(("newcomer", st))
     for end in (["vanish", 1], ["vanish", 1, "reset"]):
         for a in range(0, 6):
             fam.append(("early", [["nq", ["connect", 1]], ["iter", a], ["nq", end], ["tick", 0], ["connect", 1], ["send", 1, "USER u2"],
@@ -73,7 +80,7 @@ def run(tier, seed):
     rng = random.Random(seed)
     fam = families(tier, rng)
     for pool in (False, True):
-        cfg = gen.std_cfg(ns=1, usepool=pool, ports=[3001, 3002] if pool else [])
+        cfg = gen.std_cfg(ns=2, usepool=pool, ports=[3001, 3002] if pool else [])
         corecheck.validate(chk, cfg, gen.STD_TREE, [s for _, s in fam], label="cuts" + ("+pool" if pool else ""))
     # general sessions of several accounts at once on the same files, interleaved by the seeded scheduler with backend calls held at
     # random, any of them cut (closed, reset) anywhere
@@ -82,7 +89,7 @@ def run(tier, seed):
     corecheck.validate(chk, gen.std_cfg(ns=3, usepool=True, ports=[3001, 3002], srvmax=2, backend="path"), gen.STD_TREE, ch, label="chaos:pool:path")
     # a server listening on an IPv6 address (PASV opens a listener, answers 503 and ends the session): everything that mentions PASV
     v6 = [s for _, s in fam if "PASV" in repr(s)]
-    corecheck.validate(chk, gen.std_cfg(ns=1, usepool=True, ports=[3001, 3002], v6=True), gen.STD_TREE, v6 if tier != "quick" else v6[::3], label="cuts+v6")
+    corecheck.validate(chk, gen.std_cfg(ns=2, usepool=True, ports=[3001, 3002], v6=True), gen.STD_TREE, v6 if tier != "quick" else v6[::3], label="cuts+v6")
     chk.cov["rule"] = ("scripted corpus (all verbs, all transfer kinds) x cut after every step / while the j-th backend call "
                        "is in flight / while the passive listener is being opened, by peer EOF or server.close(); "
                        "ledger compared at every quiescent instant; distinct = distinct schedules")
